@@ -1,6 +1,7 @@
 package main
 
 import (
+	"encoding/binary"
 	"fmt"
 	"math/big"
 	"math/rand"
@@ -112,6 +113,17 @@ func decImpl(line string) string {
 		}
 		if f[1] != "rt" {
 			return "ok " + hx([]byte(text))
+		}
+		// the decimal has a life after it was printed: what Int() hands out is a copy (working on it in
+		// place must not reach the decimal), and encoding the decimal for the wire leaves it as it was —
+		// the text parsed back below is compared with the decimal AFTER these uses
+		cp := d.Int()
+		cp.Rsh(cp, 9)
+		cp.SetInt64(0)
+		asetypes.MONEY.Bytes(binary.LittleEndian, d, 8)
+		asetypes.DECN.Bytes(binary.LittleEndian, d, 33)
+		if again, panicked2 := decString(d); panicked2 || again != text {
+			return "changed-by-use"
 		}
 		d2, err := asetypes.NewDecimalString(p, s, text)
 		if err != nil {
